@@ -72,6 +72,20 @@ def prefixes(tier, rnd):
     for lead in ["\\\n    ", "\\\n", "\\\r\n\t", "\\t", "\\n", "\\u{5b}ref: 5] ", "\\x5bref: 5] ", "\\\\", "\\\"", "\\0", "\\u{20}", "{}", "{{", "%s", "\n", "\t", "\r\n"]:
         for tok in ["[ref: 7] ", "[ref: 4294967295] ", "[ref: 0]"]:
             yield ("escape-led", lead + tok + "wrapped text", None)
+    # literals that span several source lines (plain line breaks, CRLF, backslash continuations) with a token at the very start,
+    # at the start of a later line, or indented on a later line: only the start of the literal counts
+    for nl in ["\n", "\r\n", "\\\n", "\\\n        ", "\n\n", "\n\t"]:
+        for tok in ["[ref: 7]", "[ref: 4294967295] ", "[ref: 0] "]:
+            yield ("multiline-token-first", tok + " first line" + nl + "second line", None)
+            yield ("multiline-token-first", tok + nl + "second line" + nl, None)
+            yield ("multiline-token-later", "first line" + nl + tok + " later line", None)
+            yield ("multiline-token-later", "known references:" + nl + tok + nl + "[ref: 12] another", None)
+            yield ("multiline-token-later", nl + tok + " after a leading line break", None)
+    # a `breadlog:no-kvp` directive in a project that is not in structured mode changes nothing: presence is decided by the message alone
+    for msg in ["[ref: 2] under a directive", "[ref: 4294967295] top under a directive", "plain under a directive", "[ref:3] near miss under a directive",
+                "[ref: 12]", ""]:
+        for d in ["// breadlog:no-kvp", "/* BREADLOG:NO-KVP */", "//breadlog:no-kvp"]:
+            yield ("nokvp-directive", msg + " " + d[:2], ("nokvp", d))
     # ref-like text elsewhere
     for tok in ["[ref: 5] ", "[ref: 4294967295]", "ref = 5; "]:
         yield ("elsewhere-later", "msg then " + tok + "later", None)
@@ -86,6 +100,8 @@ def stmt_text(msg, wrap, i):
     if wrap is None:
         return '%s!("' % name, msg, '");'
     kind, tok = wrap
+    if kind == "nokvp":
+        return '%s\n    %s!("' % (tok, name), msg, '");'
     if kind == "target":
         return '%s!(target: "%s", "' % (name, tok), msg, '");'
     if kind == "kv":
